@@ -860,6 +860,9 @@ func scenarios() []Scenario {
 		// references that are not "clean" text, retried one after the other and after a restart
 		{Name: "reference-with-blanks-retry", Setup: []engx.Req{fund("alice", 300), ref(xfer(10, "alice", "bob"), " r40 "), ref(xfer(10, "alice", "bob"), "R41\t")},
 			Reqs: []engx.Req{ref(xfer(10, "alice", "bob"), " r40 "), ref(xfer(10, "alice", "bob"), "R41\t"), ref(xfer(10, "alice", "bob"), "r40")}},
+		// a preview that carries a key which has already taken effect is answered the recorded outcome, like any replay
+		{Name: "preview-under-a-used-key", Setup: []engx.Req{fund("alice", 100), ik(xfer(10, "alice", "bob"), "k31"), xfer(5, "alice", "bob")}, Budget: 60, Reqs: []engx.Req{
+			dry(ik(xfer(10, "alice", "bob"), "k31")), ik(xfer(10, "alice", "bob"), "k31")}},
 		// three spenders of one balance: one holds the locks, two queue behind it (a release must grant them one by one)
 		{Name: "three-spenders", Setup: []engx.Req{fund("alice", 100)}, Budget: 400, Reqs: []engx.Req{
 			xfer(100, "alice", "bob"), xfer(100, "alice", "carol"), xfer(100, "alice", "dave")},
